@@ -24,20 +24,38 @@ func hook(op string, addr interface{}) {
 	}
 }
 
-func AddUint32(addr *uint32, delta uint32) uint32 { hook("add32", addr); return atomic.AddUint32(addr, delta) }
-func AddUint64(addr *uint64, delta uint64) uint64 { hook("add64", addr); return atomic.AddUint64(addr, delta) }
-func AddInt32(addr *int32, delta int32) int32     { hook("add32", addr); return atomic.AddInt32(addr, delta) }
-func AddInt64(addr *int64, delta int64) int64     { hook("add64", addr); return atomic.AddInt64(addr, delta) }
-func LoadUint32(addr *uint32) uint32              { hook("load32", addr); return atomic.LoadUint32(addr) }
-func LoadUint64(addr *uint64) uint64              { hook("load64", addr); return atomic.LoadUint64(addr) }
-func LoadInt32(addr *int32) int32                 { hook("load32", addr); return atomic.LoadInt32(addr) }
-func LoadInt64(addr *int64) int64                 { hook("load64", addr); return atomic.LoadInt64(addr) }
-func StoreUint32(addr *uint32, v uint32)          { hook("store32", addr); atomic.StoreUint32(addr, v) }
-func StoreUint64(addr *uint64, v uint64)          { hook("store64", addr); atomic.StoreUint64(addr, v) }
-func StoreInt32(addr *int32, v int32)             { hook("store32", addr); atomic.StoreInt32(addr, v) }
-func StoreInt64(addr *int64, v int64)             { hook("store64", addr); atomic.StoreInt64(addr, v) }
-func SwapUint32(addr *uint32, v uint32) uint32    { hook("swap32", addr); return atomic.SwapUint32(addr, v) }
-func SwapUint64(addr *uint64, v uint64) uint64    { hook("swap64", addr); return atomic.SwapUint64(addr, v) }
+func AddUint32(addr *uint32, delta uint32) uint32 {
+	hook("add32", addr)
+	return atomic.AddUint32(addr, delta)
+}
+func AddUint64(addr *uint64, delta uint64) uint64 {
+	hook("add64", addr)
+	return atomic.AddUint64(addr, delta)
+}
+func AddInt32(addr *int32, delta int32) int32 {
+	hook("add32", addr)
+	return atomic.AddInt32(addr, delta)
+}
+func AddInt64(addr *int64, delta int64) int64 {
+	hook("add64", addr)
+	return atomic.AddInt64(addr, delta)
+}
+func LoadUint32(addr *uint32) uint32     { hook("load32", addr); return atomic.LoadUint32(addr) }
+func LoadUint64(addr *uint64) uint64     { hook("load64", addr); return atomic.LoadUint64(addr) }
+func LoadInt32(addr *int32) int32        { hook("load32", addr); return atomic.LoadInt32(addr) }
+func LoadInt64(addr *int64) int64        { hook("load64", addr); return atomic.LoadInt64(addr) }
+func StoreUint32(addr *uint32, v uint32) { hook("store32", addr); atomic.StoreUint32(addr, v) }
+func StoreUint64(addr *uint64, v uint64) { hook("store64", addr); atomic.StoreUint64(addr, v) }
+func StoreInt32(addr *int32, v int32)    { hook("store32", addr); atomic.StoreInt32(addr, v) }
+func StoreInt64(addr *int64, v int64)    { hook("store64", addr); atomic.StoreInt64(addr, v) }
+func SwapUint32(addr *uint32, v uint32) uint32 {
+	hook("swap32", addr)
+	return atomic.SwapUint32(addr, v)
+}
+func SwapUint64(addr *uint64, v uint64) uint64 {
+	hook("swap64", addr)
+	return atomic.SwapUint64(addr, v)
+}
 func CompareAndSwapUint32(addr *uint32, o, n uint32) bool {
 	hook("cas32", addr)
 	return atomic.CompareAndSwapUint32(addr, o, n)
